@@ -294,7 +294,11 @@ def run(ctx):
         worst = max(worst, w)
         for sig, what in V:
             ctx.violation(sig, what, {"task": list(t)})
+    # WHFast512 exists only in the AVX512 build: its part runs in a process of its own (mc/w512.py)
+    from .. import w512
+    n_w512 = w512.run(ctx, "C03")
     cov = {
+        "whfast512_cases": n_w512,
         "observed_max_error_in_units_of_the_1ulp_input_effect": worst,
         "evaluations": len(tasks) + nsteps, "distinct_nontrivial": len(tasks),
         "rule": "e in {0,1e-12,1e-4,0.1,0.5,0.9,0.99,1-1e-6,1+1e-6,1.01,1.5,10,1e3} x a{1e-6,1,1e6} x GM{1e-3,1,1e3} (quick: every third point of the a x GM plane) x 12 phases (peri/apocentre and +-1e-8 around them) x "
